@@ -213,6 +213,34 @@ def main():
                               "m_namespacesHandler.copyNamespaceAliases((*i)->getNamespacesHandler()); ++i; }") not in norm(cb):
                 errs.append("Stylesheet::collectNamespaceAliases not recognised")
         flags["aliasCollectFirst"] = new
+    # --- result tree fragments: is the result namespaces stack isolated per output context?
+    eh = open(os.path.join(REPO, "src/xalanc/XSLT/XSLTEngineImpl.hpp"), encoding="utf-8", errors="replace").read()
+    neh = norm(eh)
+    old = ("pushOutputContext(FormatterListener* theListener) { m_outputContextStack.pushContext(theListener); }" in neh
+           and "popOutputContext() { m_outputContextStack.popContext(); }" in neh)
+    new = ("pushOutputContext(FormatterListener* theListener) { m_outputContextStack.pushContext(theListener); m_resultNamespacesStack.pushIsolatedScope(); }" in neh
+           and "popOutputContext() { m_outputContextStack.popContext(); m_resultNamespacesStack.popIsolatedScope(); }" in neh)
+    if old == new:
+        errs.append("XSLTEngineImpl::pushOutputContext / popOutputContext not recognised")
+    if new:
+        fb = body_of(nc, "XalanNamespacesStack::findEntry( const XalanDOMString& theKey, MemberFunctionType theFunction) const") or body_of(nc, "XalanNamespacesStack::findEntry(")
+        pb = body_of(nc, "XalanNamespacesStack::pushIsolatedScope()")
+        qb = body_of(nc, "XalanNamespacesStack::popIsolatedScope()")
+        gb = body_of(nc, "XalanNamespacesStack::getPrefixForNamespace(")
+        ok_ = (fb is not None and pb is not None and qb is not None and gb is not None
+               and "if (m_stackPosition == m_stackBegin + m_scopeBase) { return 0; }" in norm(fb)
+               and "theBegin(m_stackBegin + m_scopeBase + 1);" in norm(fb)
+               and "if (m_stackPosition == m_stackBegin + m_scopeBase) { return 0; }" in norm(gb)
+               and "theBegin(m_stackBegin + m_scopeBase + 1);" in norm(gb)
+               and "m_scopeBaseStack.push_back(m_scopeBase); m_scopeBase = size_type(NamespacesStackType::const_iterator(m_stackPosition) - NamespacesStackType::const_iterator(m_stackBegin));" in norm(pb)
+               and "m_scopeBase = m_scopeBaseStack.back(); m_scopeBaseStack.pop_back();" in norm(qb))
+        if not ok_:
+            errs.append("XalanNamespacesStack isolated scopes (pushIsolatedScope / popIsolatedScope / findEntry / getPrefixForNamespace) not recognised")
+    else:
+        fb = body_of(nc, "XalanNamespacesStack::findEntry(")
+        if fb is None or "if (m_stackPosition == m_stackBegin) { return 0; }" not in norm(fb) or "theBegin(m_stackBegin);" not in norm(fb):
+            errs.append("XalanNamespacesStack::findEntry not recognised")
+    flags["rtfIsolatedNs"] = new
     sh_ = open(os.path.join(REPO, "src/xalanc/XSLT/Stylesheet.hpp"), encoding="utf-8", errors="replace").read()
     if "addImport(Stylesheet* theStylesheet) { m_imports.insert(m_imports.begin(), theStylesheet); }" not in norm(sh_):
         errs.append("Stylesheet::addImport: imports are expected to be stored last-import-first")
